@@ -209,7 +209,9 @@ def _restart_case(seed):
             w.restart()
             # what IMAPUserServer.run() does before it serves anybody: find the folders on disk, look at each of them
             w.run(w.server.find_all_folders())
+            w.server.initial_folder_scan = True      # as user_server_management_task does: the first scan looks at every folder
             w.run(w.server.check_all_folders())
+            w.server.initial_folder_scan = False
             for nm in names:
                 w.session(nm)
             after = observe(w)
